@@ -30,7 +30,12 @@ func valueBytes(v driver.Valuer) []byte {
 	return b
 }
 
-func scanCode(dst sql.Scanner, src []byte, get func() geom.Geometry, want string) byte {
+func scanCode(dst sql.Scanner, src []byte, get func() geom.Geometry, want string) (code byte) {
+	defer func() {
+		if r := recover(); r != nil {
+			code = 'p' // a panic inside Scan
+		}
+	}()
 	if err := dst.Scan(src); err != nil {
 		return 'e'
 	}
@@ -120,9 +125,34 @@ func main() {
 			scanCode(&gg, wkb, func() geom.Geometry { return gg }, gd),
 			scanCode(&ng, wkb, func() geom.Geometry { return ng.Geometry }, gd),
 		}
+		// the same Scan matrix on the big-endian and on the mixed-endian document of the same value
+		scanOn := func(doc []byte) string {
+			var pt geom.Point
+			var ls geom.LineString
+			var py geom.Polygon
+			var mp geom.MultiPoint
+			var ml geom.MultiLineString
+			var my geom.MultiPolygon
+			var gc geom.GeometryCollection
+			var gg geom.Geometry
+			var ng geom.NullGeometry
+			return string([]byte{
+				scanCode(&pt, doc, func() geom.Geometry { return pt.AsGeometry() }, gd),
+				scanCode(&ls, doc, func() geom.Geometry { return ls.AsGeometry() }, gd),
+				scanCode(&py, doc, func() geom.Geometry { return py.AsGeometry() }, gd),
+				scanCode(&mp, doc, func() geom.Geometry { return mp.AsGeometry() }, gd),
+				scanCode(&ml, doc, func() geom.Geometry { return ml.AsGeometry() }, gd),
+				scanCode(&my, doc, func() geom.Geometry { return my.AsGeometry() }, gd),
+				scanCode(&gc, doc, func() geom.Geometry { return gc.AsGeometry() }, gd),
+				scanCode(&gg, doc, func() geom.Geometry { return gg }, gd),
+				scanCode(&ng, doc, func() geom.Geometry { return ng.Geometry }, gd),
+			})
+		}
+		scanBE := scanOn(big)
+		scanMixed := scanOn(mixed)
 		fields := []string{
 			fmt.Sprintf("%d", i), class, n.Dump(), gd, lib.Hex(wkb), d1, re,
-			lib.Hex(mixed), d2, lib.Hex(big), d4, trail, app, val, fmt.Sprintf("%d", valid), string(scan),
+			lib.Hex(mixed), d2, lib.Hex(big), d4, trail, app, val, fmt.Sprintf("%d", valid), string(scan), scanBE, scanMixed,
 		}
 		fmt.Fprintln(w, strings.Join(fields, "\t"))
 	}
